@@ -230,7 +230,7 @@ CQuiesce(c0, e) ==
            THEN Bad("a runner returned or Close was called or the parent context ended but a running runner was not cancelled")
          ELSE IF AllRet(c) /\ ~ClosersInvoked(c) THEN Bad("all runners returned but a registered closer was not invoked")
          ELSE IF late2 /\ ~c.fatal THEN Bad("the closers outlasted the grace period but the fatal-shutdown action did not run")
-         ELSE IF AllRet(c) /\ ClosersDone(c) THEN Bad("all runners and closers finished but Run did not return")
+         ELSE IF AllRet(c) /\ ClosersDone(c) /\ ~Outstanding(c) THEN Bad("all runners and closers finished but Run did not return")
          ELSE [c EXCEPT !.late = late2]
     [] c.phase = "finished" ->
          IF ~ClosersInvoked(c) THEN Bad("a closer accepted by AddCloser was never invoked")
